@@ -14,10 +14,11 @@ structure SessOk (db : Obj → Val) (ss : Sess) : Prop where
   stab : ∀ o v, ss.stable o = some v → db o = v
   /-- what an immediate session knows of an object, and what any session knows of an object it locked, was read under
       the lock (unless it is the session's own write) -/
-  link : ∀ o r, (ss.immediate = true ∨ ss.forUpd o = true) → ss.status = .active → ss.seen o = some r → ss.pend o = none →
-    ss.stable o = some r
-  /-- a pending write is based on the value that is still the committed one -/
-  bas : ∀ o r, ss.pend o ≠ none → ss.basis o = some r → db o = r
+  link : ∀ o r, ((ss.immediate = true ∧ ss.renewed = false) ∨ ss.forUpd o = true) → ss.status = .active →
+    ss.seen o = some r → ss.pend o = none → ss.stable o = some r
+  /-- a pending write is based on the value that is still the committed one - for sessions whose UPDATEs carry the
+      optimistic check, and for the others as long as they have not committed in their middle -/
+  bas : (ss.checks = true ∨ ss.renewed = false) → ∀ o r, ss.pend o ≠ none → ss.basis o = some r → db o = r
   /-- `optimistic=False` makes the session immediate (DBSessionContextManager.__init__) -/
   wf : ss.checks = false → ss.immediate = true
   /-- only loaded objects are saved -/
@@ -29,8 +30,9 @@ structure Inv (n : Nat) (σ : St) : Prop where
   mutex : ∀ s t, (σ.sess s).inTxn = true → (σ.sess t).inTxn = true → s = t
   held : ∀ s, (σ.sess s).inTxn = true → σ.lock (σ.dom s) = some s
   holder : ∀ d s, σ.lock d = some s → (σ.sess s).inTxn = true ∧ σ.dom s = d
-  lost : σ.lost = false
+  lost : σ.unguarded = false → σ.lost = false
   broken : σ.broken = false
+  ung : ∀ s, (σ.sess s).checks = false → (σ.sess s).renewed = true → σ.unguarded = true
 
 theorem writerOther_false {n : Nat} {σ : St} {s : Sid} (h : writerOther σ s n = false) :
     ∀ t, t < n → t ≠ s → (σ.sess t).inTxn = false := by
@@ -41,10 +43,17 @@ theorem writerOther_false {n : Nat} {σ : St} {s : Sid} (h : writerOther σ s n 
 
 /-- (A) a change of the session's bookkeeping that keeps `inTxn` -/
 theorem inv_setSess {n : Nat} {σ : St} {s : Sid} {ss' : Sess} (hI : Inv n σ)
-    (hin : ss'.inTxn = (σ.sess s).inTxn) (hok : SessOk σ.db ss') : Inv n (setSess σ s ss') := by
+    (hin : ss'.inTxn = (σ.sess s).inTxn) (hcr : ss'.checks = (σ.sess s).checks ∧ ss'.renewed = (σ.sess s).renewed)
+    (hok : SessOk σ.db ss') : Inv n (setSess σ s ss') := by
   have key : ∀ t, ((setSess σ s ss').sess t).inTxn = (σ.sess t).inTxn := by
     intro t; by_cases h : t = s <;> simp [setSess, upd, h, hin]
-  refine ⟨?_, ?_, ?_, ?_, ?_, hI.lost, hI.broken⟩
+  have hung : ∀ t, ((setSess σ s ss').sess t).checks = false → ((setSess σ s ss').sess t).renewed = true →
+      (setSess σ s ss').unguarded = true := by
+    intro t h1 h2
+    by_cases h : t = s
+    · subst h; simp only [setSess, upd_same] at h1 h2; rw [hcr.1] at h1; rw [hcr.2] at h2; exact hI.ung t h1 h2
+    · simp only [setSess, upd, h, if_false] at h1 h2; exact hI.ung t h1 h2
+  refine ⟨?_, ?_, ?_, ?_, ?_, hI.lost, hI.broken, hung⟩
   · intro t
     by_cases h : t = s
     · subst h; simpa [setSess] using hok
@@ -58,7 +67,7 @@ theorem inv_setSess {n : Nat} {σ : St} {s : Sid} {ss' : Sess} (hI : Inv n σ)
 
 /-- (B) the pre-lock is not part of the invariant -/
 theorem inv_pre {n : Nat} {σ : St} (p : Nat → Option Sid) (hI : Inv n σ) : Inv n { σ with pre := p } :=
-  ⟨hI.sok, hI.bound, hI.mutex, hI.held, hI.holder, hI.lost, hI.broken⟩
+  ⟨hI.sok, hI.bound, hI.mutex, hI.held, hI.holder, hI.lost, hI.broken, hI.ung⟩
 
 /-- (C) BEGIN IMMEDIATE under the lock -/
 theorem inv_begin {n : Nat} {σ : St} {s : Sid} (hI : Inv n σ) (hs : s < n)
@@ -68,7 +77,14 @@ theorem inv_begin {n : Nat} {σ : St} {s : Sid} (hI : Inv n σ) (hs : s < n)
   have hothers := writerOther_false hw
   have hso := hI.sok s
   have hcl := hso.clean hnot
-  refine ⟨?_, ?_, ?_, ?_, ?_, hI.lost, hI.broken⟩
+  have hung : ∀ t, ((setSess { σ with lock := upd σ.lock (σ.dom s) (some s) } s { σ.sess s with inTxn := true }).sess t).checks = false →
+      ((setSess { σ with lock := upd σ.lock (σ.dom s) (some s) } s { σ.sess s with inTxn := true }).sess t).renewed = true →
+      σ.unguarded = true := by
+    intro t h1 h2
+    by_cases h : t = s
+    · subst h; simp only [setSess, upd_same] at h1 h2; exact hI.ung t h1 h2
+    · simp only [setSess, upd, h, if_false] at h1 h2; exact hI.ung t h1 h2
+  refine ⟨?_, ?_, ?_, ?_, ?_, hI.lost, hI.broken, hung⟩
   · intro t
     by_cases h : t = s
     · subst h
@@ -77,9 +93,9 @@ theorem inv_begin {n : Nat} {σ : St} {s : Sid} (hI : Inv n σ) (hs : s < n)
       · intro o v hv; simp [(hcl o).2.1] at hv
       · intro o r himm hst hseen hp
         simp only at himm hst hseen hp
-        have := hso.link o r (by simpa using himm) hact hseen hp
+        have := hso.link o r himm hact hseen hp
         simp [(hcl o).2.1] at this
-      · intro o r hp; simp [(hcl o).1] at hp
+      · intro _ o r hp; simp [(hcl o).1] at hp
     · simpa [setSess, upd, h] using hI.sok t
   · intro t ht
     by_cases h : t = s
@@ -117,12 +133,18 @@ theorem inv_begin {n : Nat} {σ : St} {s : Sid} (hI : Inv n σ) (hs : s < n)
 theorem inv_fail {n : Nat} {σ : St} (s : Sid) (hI : Inv n σ) : Inv n (failSess σ s) := by
   have key : ∀ t, t ≠ s → (failSess σ s).sess t = σ.sess t := by intro t h; simp [failSess, upd, h]
   have hs : ((failSess σ s).sess s).inTxn = false := by simp [failSess]
-  refine ⟨?_, ?_, ?_, ?_, ?_, by simpa [failSess] using hI.lost, by simpa [failSess] using hI.broken⟩
+  have hung : ∀ t, ((failSess σ s).sess t).checks = false → ((failSess σ s).sess t).renewed = true →
+      (failSess σ s).unguarded = true := by
+    intro t h1 h2
+    by_cases h : t = s
+    · subst h; simp only [failSess, upd_same] at h1 h2; simpa [failSess] using hI.ung t h1 h2
+    · rw [key t h] at h1 h2; simpa [failSess] using hI.ung t h1 h2
+  refine ⟨?_, ?_, ?_, ?_, ?_, by simpa [failSess] using hI.lost, by simpa [failSess] using hI.broken, hung⟩
   · intro t
     by_cases h : t = s
     · subst h
       refine ⟨fun _ o => by simp [failSess], fun h => by simp [failSess] at h, fun o v h => by simp [failSess] at h,
-              fun o r _ hst => by simp [failSess] at hst, fun o r hp => by simp [failSess] at hp, ?_,
+              fun o r _ hst => by simp [failSess] at hst, fun _ o r hp => by simp [failSess] at hp, ?_,
               fun o hp => by simp [failSess] at hp⟩
       simpa [failSess] using (hI.sok t).wf
     · rw [key t h]; simpa [failSess] using hI.sok t
@@ -225,7 +247,7 @@ theorem sessOk_load {db : Obj → Val} {ss : Sess} (o : Obj) (h : SessOk db ss) 
       simp at hs
       have hin : ss.inTxn = true := by
         rcases hor with hi | hf
-        · exact himm hi
+        · exact himm hi.1
         · cases hin : ss.inTxn with
           | true => rfl
           | false => have := (h.clean hin o').2.2.1; simp [this] at hf
@@ -312,14 +334,14 @@ theorem sessOk_update {db : Obj → Val} {ss : Sess} (o : Obj) (r v : Val) (h : 
     · subst ho; simp at hp
     · rw [upd_other _ _ _ _ ho] at hs hp
       exact h.link o' r' hor hst hs hp
-  · intro o' r' hp hb
-    simp only at hp hb
+  · intro hg o' r' hp hb
+    simp only at hg hp hb
     by_cases ho : o' = o
     · subst ho
       cases hpo : ss.pend o' with
       | some w =>
         simp [hpo] at hb
-        exact h.bas o' r' (by simp [hpo]) hb
+        exact h.bas hg o' r' (by simp [hpo]) hb
       | none =>
         simp [hpo] at hb hcheck
         subst hb
@@ -330,98 +352,211 @@ theorem sessOk_update {db : Obj → Val} {ss : Sess} (o : Obj) (r v : Val) (h : 
           · have := hcheck hch (by simpa using hfu)
             exact this
           · have himm := h.wf (by simpa using hch)
-            exact h.stab o' r (h.link o' r (Or.inl himm) hact hseen hpo)
+            have hren : ss.renewed = false := by
+              rcases hg with hc | hr
+              · exact absurd hc hch
+              · exact hr
+            exact h.stab o' r (h.link o' r (Or.inl ⟨himm, hren⟩) hact hseen hpo)
     · rw [upd_other _ _ _ _ ho] at hp
       split at hb
-      · rw [upd_other _ _ _ _ ho] at hb; exact h.bas o' r' hp hb
-      · exact h.bas o' r' hp hb
+      · rw [upd_other _ _ _ _ ho] at hb; exact h.bas hg o' r' hp hb
+      · exact h.bas hg o' r' hp hb
   · intro o' hp
     simp only at hp ⊢
     by_cases ho : o' = o
     · subst ho; simp
     · rw [upd_other _ _ _ _ ho] at hp ⊢; exact h.pseen o' hp
 
-/-! ### commit -/
+/-! ### commit (at the end of the session or in its middle) -/
 
-/-- the state after the COMMIT of session `s` (as in `step`) -/
-def afterCommit (n : Nat) (σ : St) (s : Sid) : St :=
-  let ss := σ.sess s
-  let newdb : Obj → Val := fun o => (ss.pend o).getD (σ.db o)
-  let lostNow : Bool := (List.range n).any (fun o => (ss.pend o).isSome && (ss.basis o).isSome && ss.basis o != some (σ.db o))
-  let brokenNow : Bool := (List.range n).any (fun t => t != s && (σ.sess t).status == .active &&
-    (List.range n).any (fun o => ((σ.sess t).stable o).isSome && (σ.sess t).stable o != some (newdb o)))
-  { σ with db := newdb, lock := upd σ.lock (σ.dom s) none, lost := σ.lost || lostNow, broken := σ.broken || brokenNow,
-           sess := upd σ.sess s { ss with status := .committed, inTxn := false, pend := fun _ => none,
-                                          forUpd := fun _ => false, stable := fun _ => none, basis := fun _ => none } }
+/-- the session's bookkeeping after a COMMIT -/
+def endTxnSess (ss : Sess) (final : Bool) : Sess :=
+  { ss with status := if final then .committed else .active, inTxn := false, immediate := ss.immediate || !final,
+            pend := fun _ => none, forUpd := fun _ => false, stable := fun _ => none, basis := fun _ => none,
+            renewed := ss.renewed || !final }
 
-theorem inv_commit {n : Nat} {σ : St} {s : Sid} (hI : Inv n σ) (hin : (σ.sess s).inTxn = true) :
-    Inv n (afterCommit n σ s) := by
-  have hother : ∀ t, t ≠ s → (σ.sess t).inTxn = false := by
-    intro t ht
-    cases h : (σ.sess t).inTxn with
-    | false => rfl
-    | true => exact absurd (hI.mutex t s h hin) ht
-  have key : ∀ t, t ≠ s → (afterCommit n σ s).sess t = σ.sess t := by intro t h; simp [afterCommit, upd, h]
-  have hs : ((afterCommit n σ s).sess s).inTxn = false := by simp [afterCommit]
-  have hlost : (List.range n).any (fun o => ((σ.sess s).pend o).isSome && ((σ.sess s).basis o).isSome &&
-      (σ.sess s).basis o != some (σ.db o)) = false := by
-    rw [List.any_eq_false]
-    intro o _
-    cases hp : (σ.sess s).pend o with
-    | none => simp
-    | some w =>
-      cases hb : (σ.sess s).basis o with
-      | none => simp
-      | some r =>
-        have := (hI.sok s).bas o r (by simp [hp]) hb
-        simp [this]
-  have hbroken : (List.range n).any (fun t => t != s && (σ.sess t).status == .active &&
-      (List.range n).any (fun o => ((σ.sess t).stable o).isSome &&
-        (σ.sess t).stable o != some (((σ.sess s).pend o).getD (σ.db o)))) = false := by
-    rw [List.any_eq_false]
-    intro t _
-    by_cases hts : t = s
-    · simp [hts]
-    · have hcl := (hI.sok t).clean (hother t hts)
-      have : (List.range n).any (fun o => ((σ.sess t).stable o).isSome &&
-          (σ.sess t).stable o != some (((σ.sess s).pend o).getD (σ.db o))) = false := by
-        rw [List.any_eq_false]; intro o _; simp [(hcl o).2.1]
-      simp [this]
-  refine ⟨?_, ?_, ?_, ?_, ?_, ?_, ?_⟩
-  · intro t
+/-- the state after a `commit()` with nothing open -/
+def flagSt (σ : St) (s : Sid) (final : Bool) : St :=
+  { σ with unguarded := σ.unguarded || (!final && !(σ.sess s).checks),
+           sess := upd σ.sess s { σ.sess s with status := if final then .committed else .active,
+                                                immediate := (σ.sess s).immediate || !final, stable := fun _ => none,
+                                                renewed := (σ.sess s).renewed || !final } }
+
+/-- ... after a `commit()` with nothing open -/
+def flagSess (ss : Sess) (final : Bool) : Sess :=
+  { ss with status := if final then .committed else .active, immediate := ss.immediate || !final, stable := fun _ => none,
+            renewed := ss.renewed || !final }
+
+theorem inv_commitSess {n : Nat} {σ : St} {s : Sid} (final : Bool) (hI : Inv n σ) : Inv n (commitSess n σ s final) := by
+  have hso := hI.sok s
+  -- `unguarded` only grows, and it is set when a session without checks commits in its middle
+  have hungmono : (commitSess n σ s final).unguarded = (σ.unguarded || (!final && !(σ.sess s).checks)) := by
+    unfold commitSess; dsimp only; split <;> rfl
+  have hung : ∀ t, ((commitSess n σ s final).sess t).checks = false → ((commitSess n σ s final).sess t).renewed = true →
+      (commitSess n σ s final).unguarded = true := by
+    intro t h1 h2
+    rw [hungmono]
     by_cases h : t = s
     · subst h
-      refine ⟨fun _ o => by simp [afterCommit], fun h => by simp [afterCommit] at h, fun o v h => by simp [afterCommit] at h,
-              fun o r _ hst => by simp [afterCommit] at hst, fun o r hp => by simp [afterCommit] at hp, ?_,
-              fun o hp => by simp [afterCommit] at hp⟩
-      simpa [afterCommit] using (hI.sok t).wf
-    · rw [key t h]
-      have hso := hI.sok t
-      have hcl := hso.clean (hother t h)
-      refine ⟨hso.clean, hso.act, ?_, hso.link, ?_, hso.wf, hso.pseen⟩
-      · intro o v hv; simp [(hcl o).2.1] at hv
-      · intro o r hp; simp [(hcl o).1] at hp
-  · intro t ht
-    by_cases h : t = s
-    · subst h; simp [hs] at ht
-    · rw [key t h] at ht; exact hI.bound t ht
-  · intro t u ht hu
-    by_cases h1 : t = s
-    · subst h1; simp [hs] at ht
-    · rw [key t h1, hother t h1] at ht; cases ht
-  · intro t ht
-    by_cases h : t = s
-    · subst h; simp [hs] at ht
-    · rw [key t h, hother t h] at ht; cases ht
-  · intro d t hlk
-    by_cases hd : d = σ.dom s
-    · subst hd; simp [afterCommit, upd] at hlk
-    · have hlk' : σ.lock d = some t := by simpa [afterCommit, upd, hd] using hlk
-      have := hI.holder d t hlk'
-      have hts : t ≠ s := by intro he; subst he; exact hd this.2.symm
-      rw [hother t hts] at this; cases this.1
-  · simp only [afterCommit, hI.lost, Bool.false_or]; exact hlost
-  · simp only [afterCommit, hI.broken, Bool.false_or]; exact hbroken
+      have hc : (σ.sess t).checks = false := by
+        unfold commitSess at h1; dsimp only at h1; split at h1 <;> simpa using h1
+      have hr : ((σ.sess t).renewed || !final) = true := by
+        unfold commitSess at h2; dsimp only at h2; split at h2 <;> simpa using h2
+      cases hf : final with
+      | false => simp [hc]
+      | true =>
+        have : (σ.sess t).renewed = true := by simpa [hf] using hr
+        simp [hI.ung t hc this]
+    · have e : (commitSess n σ s final).sess t = σ.sess t := by
+        unfold commitSess; dsimp only; split <;> simp [upd, h]
+      rw [e] at h1 h2
+      simp [hI.ung t h1 h2]
+  by_cases hin : (σ.sess s).inTxn = true
+  · -- a transaction is open: COMMIT
+    have hother : ∀ t, t ≠ s → (σ.sess t).inTxn = false := by
+      intro t ht
+      cases h : (σ.sess t).inTxn with
+      | false => rfl
+      | true => exact absurd (hI.mutex t s h hin) ht
+    have key : ∀ t, t ≠ s → (commitSess n σ s final).sess t = σ.sess t := by
+      intro t h; unfold commitSess; dsimp only; rw [if_pos hin]; simp [upd, h]
+    have hs : ((commitSess n σ s final).sess s).inTxn = false := by
+      unfold commitSess; dsimp only; rw [if_pos hin]; simp
+    have hdb : ∀ o, (commitSess n σ s final).db o = ((σ.sess s).pend o).getD (σ.db o) := by
+      intro o; unfold commitSess; dsimp only; rw [if_pos hin]
+    have hlockeq : (commitSess n σ s final).lock = upd σ.lock (σ.dom s) none := by
+      unfold commitSess; dsimp only; rw [if_pos hin]
+    have hdom : (commitSess n σ s final).dom = σ.dom := by
+      unfold commitSess; dsimp only; rw [if_pos hin]
+    have hlost : σ.unguarded = false → (List.range n).any (fun o => ((σ.sess s).pend o).isSome && ((σ.sess s).basis o).isSome &&
+        (σ.sess s).basis o != some (σ.db o)) = false := by
+      intro hu
+      have hg : (σ.sess s).checks = true ∨ (σ.sess s).renewed = false := by
+        cases hc : (σ.sess s).checks with
+        | true => exact Or.inl rfl
+        | false =>
+          cases hr : (σ.sess s).renewed with
+          | false => exact Or.inr rfl
+          | true => have := hI.ung s hc hr; rw [hu] at this; cases this
+      rw [List.any_eq_false]
+      intro o _
+      cases hp : (σ.sess s).pend o with
+      | none => simp
+      | some w =>
+        cases hb : (σ.sess s).basis o with
+        | none => simp
+        | some r =>
+          have := hso.bas hg o r (by simp [hp]) hb
+          simp [this]
+    have hbroken : (List.range n).any (fun t => t != s && (σ.sess t).status == .active &&
+        (List.range n).any (fun o => ((σ.sess t).stable o).isSome &&
+          (σ.sess t).stable o != some (((σ.sess s).pend o).getD (σ.db o)))) = false := by
+      rw [List.any_eq_false]
+      intro t _
+      by_cases hts : t = s
+      · simp [hts]
+      · have hcl := (hI.sok t).clean (hother t hts)
+        have : (List.range n).any (fun o => ((σ.sess t).stable o).isSome &&
+            (σ.sess t).stable o != some (((σ.sess s).pend o).getD (σ.db o))) = false := by
+          rw [List.any_eq_false]; intro o _; simp [(hcl o).2.1]
+        simp [this]
+    refine ⟨?_, ?_, ?_, ?_, ?_, ?_, ?_, hung⟩
+    · intro t
+      by_cases h : t = s
+      · subst h
+        have e : (commitSess n σ t final).sess t = endTxnSess (σ.sess t) final := by
+          unfold commitSess endTxnSess; dsimp only; rw [if_pos hin]; simp
+        rw [e]; unfold endTxnSess
+        refine ⟨fun _ o => by simp, fun h => by simp at h, fun o v h => by simp at h, ?_, fun _ o r hp => by simp at hp, ?_,
+                fun o hp => by simp at hp⟩
+        · intro o r hor hst _ _
+          simp only at hor hst
+          cases hf : final with
+          | true => simp [hf] at hst
+          | false => simp [hf] at hor
+        · intro hc; simp only at hc ⊢; simp [hso.wf hc]
+      · rw [key t h]
+        have hso' := hI.sok t
+        have hcl := hso'.clean (hother t h)
+        refine ⟨hso'.clean, hso'.act, ?_, hso'.link, ?_, hso'.wf, hso'.pseen⟩
+        · intro o v hv; simp [(hcl o).2.1] at hv
+        · intro _ o r hp; simp [(hcl o).1] at hp
+    · intro t ht
+      by_cases h : t = s
+      · subst h; simp [hs] at ht
+      · rw [key t h] at ht; exact hI.bound t ht
+    · intro t u ht hu
+      by_cases h1 : t = s
+      · subst h1; simp [hs] at ht
+      · rw [key t h1, hother t h1] at ht; cases ht
+    · intro t ht
+      by_cases h : t = s
+      · subst h; simp [hs] at ht
+      · rw [key t h, hother t h] at ht; cases ht
+    · intro d t hlk
+      rw [hlockeq] at hlk
+      by_cases hd : d = σ.dom s
+      · subst hd; simp [upd] at hlk
+      · have hlk' : σ.lock d = some t := by simpa [upd, hd] using hlk
+        have := hI.holder d t hlk'
+        have hts : t ≠ s := by intro he; subst he; exact hd this.2.symm
+        rw [hother t hts] at this; cases this.1
+    · intro hu
+      rw [hungmono] at hu
+      have hu0 : σ.unguarded = false := by
+        cases h : σ.unguarded with
+        | false => rfl
+        | true => simp [h] at hu
+      have : (commitSess n σ s final).lost = (σ.lost || (List.range n).any (fun o => ((σ.sess s).pend o).isSome &&
+          ((σ.sess s).basis o).isSome && (σ.sess s).basis o != some (σ.db o))) := by
+        unfold commitSess; dsimp only; rw [if_pos hin]
+      rw [this, hI.lost hu0, hlost hu0]; rfl
+    · have : (commitSess n σ s final).broken = (σ.broken || (List.range n).any (fun t => t != s && (σ.sess t).status == .active &&
+          (List.range n).any (fun o => ((σ.sess t).stable o).isSome &&
+            (σ.sess t).stable o != some (((σ.sess s).pend o).getD (σ.db o))))) := by
+        unfold commitSess; dsimp only; rw [if_pos hin]
+      rw [this, hI.broken, hbroken]; rfl
+  · -- nothing is open: only the session's flags change
+    have hin' : (σ.sess s).inTxn = false := by simpa using hin
+    have e : commitSess n σ s final = flagSt σ s final := by
+      unfold commitSess flagSt; dsimp only; rw [if_neg hin]
+    have key : ∀ t, t ≠ s → (commitSess n σ s final).sess t = σ.sess t := by intro t h; rw [e]; simp [flagSt, upd, h]
+    have hkeep : ∀ t, ((commitSess n σ s final).sess t).inTxn = (σ.sess t).inTxn := by
+      intro t; by_cases h : t = s
+      · subst h; rw [e]; simp [flagSt]
+      · rw [key t h]
+    have hcl := hso.clean hin'
+    refine ⟨?_, ?_, ?_, ?_, ?_, ?_, by rw [e]; exact hI.broken, hung⟩
+    · intro t
+      by_cases h : t = s
+      · subst h
+        rw [e]; simp only [flagSt, upd_same]
+        refine ⟨fun _ o => by simp [(hcl o).1, (hcl o).2.2.1, (hcl o).2.2.2], fun h => by simp [hin'] at h,
+                fun o v h => by simp at h, ?_, fun _ o r hp => by simp [(hcl o).1] at hp, ?_, hso.pseen⟩
+        · intro o r hor hst hseen _
+          simp only at hor hst hseen
+          cases hf : final with
+          | true => simp [hf] at hst
+          | false =>
+            rcases hor with ⟨_, hr⟩ | hfu
+            · simp [hf] at hr
+            · simp [(hcl o).2.2.1] at hfu
+        · intro hc; simp only at hc ⊢; simp [hso.wf hc]
+      · rw [key t h]; rw [e]; exact hI.sok t
+    · intro t ht; rw [hkeep] at ht; exact hI.bound t ht
+    · intro t u ht hu; rw [hkeep] at ht hu; exact hI.mutex t u ht hu
+    · intro t ht; rw [hkeep] at ht; rw [e]; exact hI.held t ht
+    · intro d t hlk
+      rw [hkeep]
+      rw [e] at hlk ⊢
+      exact hI.holder d t hlk
+    · intro hu
+      rw [hungmono] at hu
+      have hu0 : σ.unguarded = false := by
+        cases h : σ.unguarded with
+        | false => rfl
+        | true => simp [h] at hu
+      rw [e]; exact hI.lost hu0
 
 /-- the invariant is preserved by every operation of every session -/
 theorem step_inv {n : Nat} {σ : St} {s : Sid} (a : Act) (hI : Inv n σ) (hs : s < n) : Inv n (step n σ s a).1 := by
@@ -453,13 +588,13 @@ theorem step_inv {n : Nat} {σ : St} {s : Sid} (a : Act) (hI : Inv n σ) (hs : s
           have := sessOk_load o (hI'.sok s) hseen' (fun _ => hin')
           rw [if_pos hin'] at this
           rw [hov]
-          exact inv_setSess hI' rfl this
+          exact inv_setSess hI' rfl ⟨rfl, rfl⟩ this
       · rw [if_neg himm]
         have hov := ownView_eq_db (hI.sok s) hseen
         have := sessOk_load o (hI.sok s) hseen (fun h => absurd h himm)
         dsimp only
         rw [hov]
-        exact inv_setSess hI rfl this
+        exact inv_setSess hI rfl ⟨rfl, rfl⟩ this
   | lockRead o =>
     dsimp only
     cases hE : ensureTxn n σ s with
@@ -475,7 +610,7 @@ theorem step_inv {n : Nat} {σ : St} {s : Sid} (a : Act) (hI : Inv n σ) (hs : s
         dsimp only
         have hov := ownView_eq_db (hI'.sok s) hseen
         rw [hov]
-        exact inv_setSess hI' rfl (sessOk_lockNew o (hI'.sok s) hin' hseen)
+        exact inv_setSess hI' rfl ⟨rfl, rfl⟩ (sessOk_lockNew o (hI'.sok s) hin' hseen)
       | some r =>
         dsimp only
         split
@@ -486,7 +621,7 @@ theorem step_inv {n : Nat} {σ : St} {s : Sid} (a : Act) (hI : Inv n σ) (hs : s
             simp only [hp, Option.isNone_none, Bool.true_and, ownView, Option.getD_none, ne_eq, decide_not,
               Bool.not_eq_eq_eq_not, Bool.not_true, decide_eq_false_iff_not] at hc
             exact Classical.not_not.mp hc
-          exact inv_setSess hI' rfl (sessOk_lockSeen o r (hI'.sok s) hin' hseen hsame)
+          exact inv_setSess hI' rfl ⟨rfl, rfl⟩ (sessOk_lockSeen o r (hI'.sok s) hin' hseen hsame)
   | update o v =>
     dsimp only
     cases hseen : (σ.sess s).seen o with
@@ -505,19 +640,9 @@ theorem step_inv {n : Nat} {σ : St} {s : Sid} (a : Act) (hI : Inv n σ) (hs : s
         split
         · exact inv_fail s hI'
         · rename_i hc
-          exact inv_setSess hI' rfl (sessOk_update o r v (hI'.sok s) hin' hseen' (Bool.eq_false_iff.mpr hc))
-  | commit =>
-    dsimp only
-    by_cases hin : (σ.sess s).inTxn = true
-    · rw [if_pos hin]; exact inv_commit hI hin
-    · rw [if_neg hin]
-      have hin' : (σ.sess s).inTxn = false := by simpa using hin
-      have hso := hI.sok s
-      refine inv_setSess hI rfl ⟨?_, ?_, ?_, ?_, hso.bas, hso.wf, hso.pseen⟩
-      · intro _ o'; have := hso.clean hin' o'; simp [this]
-      · intro h; simp [hin'] at h
-      · intro o' v' h; simp at h
-      · intro o' r' _ hst; simp at hst
+          exact inv_setSess hI' rfl ⟨rfl, rfl⟩ (sessOk_update o r v (hI'.sok s) hin' hseen' (Bool.eq_false_iff.mpr hc))
+  | commit => exact inv_commitSess true hI
+  | commitMid => exact inv_commitSess false hI
   | rollback => exact inv_fail s hI
 
 /-- frame: a step of session `t` (not inside a transaction) leaves the bookkeeping of every other session alone -/
@@ -596,12 +721,101 @@ theorem step_frame {n : Nat} {σ : St} {s t : Sid} (a : Act) (hts : t ≠ s) (ht
           apply hite
           · dsimp only; rw [hfail]; exact hE3
           · dsimp only; rw [hset]; exact hE3
-    | commit =>
-      dsimp only
-      rw [if_neg (by simp [htin])]
-      dsimp only
-      rw [hset]
+    | commit => dsimp only; unfold commitSess; dsimp only; rw [if_neg (by simp [htin])]; simp [upd, hts.symm]
+    | commitMid => dsimp only; unfold commitSess; dsimp only; rw [if_neg (by simp [htin])]; simp [upd, hts.symm]
     | rollback => dsimp only; rw [hfail]
+
+/-- `unguarded` is raised by exactly one kind of step: `commit()` in the middle of a session without optimistic checks -/
+theorem step_unguarded {n : Nat} {σ : St} {t : Sid} (a : Act) :
+    (step n σ t a).1.unguarded = (σ.unguarded || (decide (a = .commitMid) && (σ.sess t).status == .active && !(σ.sess t).checks)) := by
+  have hset : ∀ (τ : St) (x : Sess), (setSess τ t x).unguarded = τ.unguarded := fun _ _ => rfl
+  have hfail : ∀ (τ : St), (failSess τ t).unguarded = τ.unguarded := fun _ => rfl
+  have hite : ∀ (c : Prop) [Decidable c] (x y : St × Res), x.1.unguarded = σ.unguarded → y.1.unguarded = σ.unguarded →
+      (if c then x else y).1.unguarded = σ.unguarded := by
+    intro c _ x y hx hy; split <;> assumption
+  have hens : ∀ r, ensureTxn n σ t = r →
+      match r with | .ok τ => τ.unguarded = σ.unguarded | .blocked τ => τ.unguarded = σ.unguarded | .busy τ => τ.unguarded = σ.unguarded := by
+    intro r hr
+    unfold ensureTxn at hr
+    dsimp only at hr
+    split at hr
+    · subst hr; rfl
+    · split at hr
+      · split at hr
+        · split at hr
+          · subst hr; rfl
+          · split at hr
+            · subst hr; rfl
+            · subst hr; rfl
+        · subst hr; rfl
+      · split at hr
+        · subst hr; rfl
+        · split at hr
+          · subst hr; rfl
+          · subst hr; rfl
+  have hE3 := hens _ rfl
+  unfold step
+  dsimp only
+  by_cases hact : (σ.sess t).status = .active
+  case neg =>
+    rw [if_pos hact]
+    have : ((σ.sess t).status == Status.active) = false := by
+      cases h : (σ.sess t).status <;> simp_all
+    simp [this]
+  rw [if_neg (by simpa using hact)]
+  have hact' : ((σ.sess t).status == Status.active) = true := by simp [hact]
+  cases a with
+  | read o' =>
+    simp only [reduceCtorEq, decide_false, Bool.false_and, Bool.or_false]
+    cases hseen : (σ.sess t).seen o' with
+    | some v => rfl
+    | none =>
+      dsimp only
+      apply hite
+      · cases hE : ensureTxn n σ t with
+        | ok τ => rw [hE] at hE3; dsimp only; rw [hset]; exact hE3
+        | blocked τ => rw [hE] at hE3; exact hE3
+        | busy τ => rw [hE] at hE3; exact hE3
+      · rfl
+  | lockRead o' =>
+    simp only [reduceCtorEq, decide_false, Bool.false_and, Bool.or_false]
+    cases hE : ensureTxn n σ t with
+    | blocked τ => rw [hE] at hE3; exact hE3
+    | busy τ => rw [hE] at hE3; exact hE3
+    | ok τ =>
+      rw [hE] at hE3
+      dsimp only
+      cases hseen : (τ.sess t).seen o' with
+      | none => dsimp only; rw [hset]; exact hE3
+      | some r =>
+        dsimp only
+        split
+        · dsimp only; rw [hfail]; exact hE3
+        · dsimp only; rw [hset]; exact hE3
+  | update o' v' =>
+    simp only [reduceCtorEq, decide_false, Bool.false_and, Bool.or_false]
+    cases hseen : (σ.sess t).seen o' with
+    | none => rfl
+    | some r =>
+      dsimp only
+      cases hE : ensureTxn n σ t with
+      | blocked τ => rw [hE] at hE3; exact hE3
+      | busy τ => rw [hE] at hE3; exact hE3
+      | ok τ =>
+        rw [hE] at hE3
+        dsimp only
+        split
+        · dsimp only; rw [hfail]; exact hE3
+        · dsimp only; rw [hset]; exact hE3
+  | commit =>
+    simp only [reduceCtorEq, decide_false, Bool.false_and, Bool.or_false]
+    unfold commitSess; dsimp only; split <;> simp
+  | commitMid =>
+    simp only [decide_true, Bool.true_and, hact']
+    unfold commitSess; dsimp only; split <;> simp
+  | rollback =>
+    simp only [reduceCtorEq, decide_false, Bool.false_and, Bool.or_false]
+    rfl
 
 theorem run_inv {n : Nat} (sched : List (Sid × Act)) : ∀ (σ : St), Inv n σ → (∀ p ∈ sched, p.1 < n) → Inv n (run n σ sched) := by
   induction sched with
@@ -613,11 +827,11 @@ theorem run_inv {n : Nat} (sched : List (Sid × Act)) : ∀ (σ : St), Inv n σ 
 
 theorem inv_init (n : Nat) (db : Obj → Val) (cfg : Sid → Bool × Bool) (dom : Sid → Nat)
     (hwf : ∀ s, (cfg s).2 = false → (cfg s).1 = true) : Inv n (St.init db cfg dom) := by
-  refine ⟨?_, ?_, ?_, ?_, ?_, rfl, rfl⟩
+  refine ⟨?_, ?_, ?_, ?_, ?_, fun _ => rfl, rfl, fun s _ h => by simp [St.init, Sess.fresh] at h⟩
   · intro s
     refine ⟨fun _ o => by simp [St.init, Sess.fresh], fun h => by simp [St.init, Sess.fresh] at h,
             fun o v h => by simp [St.init, Sess.fresh] at h, fun o r _ _ h => by simp [St.init, Sess.fresh] at h,
-            fun o r h => by simp [St.init, Sess.fresh] at h, ?_, fun o h => by simp [St.init, Sess.fresh] at h⟩
+            fun _ o r h => by simp [St.init, Sess.fresh] at h, ?_, fun o h => by simp [St.init, Sess.fresh] at h⟩
     simpa [St.init, Sess.fresh] using hwf s
   · intro s h; simp [St.init, Sess.fresh] at h
   · intro s t h; simp [St.init, Sess.fresh] at h
